@@ -16,7 +16,7 @@ Ev == TraceLog[l]
 IsEvent(e) == l <= Len(TraceLog) /\ Ev.ev = e /\ l' = l + 1
 
 Dummy == [id |-> "-", nf |-> 0, off |-> <<>>, span |-> <<>>, pre |-> <<>>, prf |-> <<>>, prio |-> <<>>, lm |-> "none", loff |-> 0,
-          size |-> 1, cs |-> 1, cfg |-> 0, thr |-> 0, f0 |-> <<>>, rd |-> <<>>, ro |-> 2, np |-> 0, nw |-> 0, nb |-> 0, haslst |-> FALSE]
+          size |-> 1, cs |-> 1, cfg |-> 0, thr |-> 0, f0 |-> <<>>, rd |-> <<>>, ro |-> 2, pt |-> <<>>, free |-> FALSE, np |-> 0, nw |-> 0, nb |-> 0, haslst |-> FALSE]
 
 ObsFetched == ToSet(Ev.obs.fetched)
 Got == ObsFetched \ fetched
@@ -78,6 +78,7 @@ TraceReadCancelled ==
     /\ last' = [act |-> "Read", f |-> Ev.f, ok |-> FALSE, req |-> {}]
     /\ ObsOK
 TraceRead == IsEvent("Read") /\ ReadG(Ev.f, Ev.ok, Got, L2(IF Ev.ok THEN MarkFull(lst, {Ev.f}) ELSE lst), Rq) /\ ObsOK
+TraceReadPart == IsEvent("ReadPart") /\ ReadPartG(Ev.f, Ev.k, Ev.ok, Got, L2(PartState(lst, Ev.f)), Rq) /\ ObsOK
 TraceRegistryOff == IsEvent("RegistryOff") /\ RegistryOff /\ ObsOK
 TraceRegistryOn == IsEvent("RegistryOn") /\ RegistryOn /\ ObsOK
 
@@ -87,7 +88,7 @@ TraceRegistryOn == IsEvent("RegistryOn") /\ RegistryOn /\ ObsOK
 \* observation, if it is monotone and confined to the files background fetch caches.
 \* files whose chunk-cache state the next event itself may change (left to that event)
 OwnFiles ==
-    CASE Ev.ev = "Read" -> {Ev.f} \cup Pre(Ev.f) \cup Prf(Ev.f)
+    CASE Ev.ev \in {"Read", "ReadPart"} -> {Ev.f} \cup Pre(Ev.f) \cup Prf(Ev.f)
       [] Ev.ev = "ReaderCache" -> LET F == RangeFiles(psize) IN F \cup UNION {Pre(g) \cup Prf(g) : g \in F}
       [] Ev.ev \in {"BgFinish", "BgStall", "Reset", "Drain"} -> Files
       [] Ev.ev = "PrioEnd" -> IF BgResumes(PfPrio) THEN Files ELSE {}
@@ -110,7 +111,7 @@ TraceNext ==
     \/ TraceReset \/ TracePrefetchCall \/ TraceRange \/ TraceAsyncThreshold \/ TraceBlobCacheStall \/ TraceBlobCache
     \/ TraceReaderCache \/ TracePrefetchEnd \/ TracePrefetchReturn \/ TraceWaitCall \/ TraceWaitReturn \/ TraceWaitTimeout
     \/ TraceBgCall \/ TraceBgStall \/ TraceBgFinish \/ TraceBgReturn \/ TracePrioBegin \/ TracePrioEnd \/ TraceRead
-    \/ TraceRegistryOff \/ TraceRegistryOn \/ TraceReadCancelled
+    \/ TraceRegistryOff \/ TraceRegistryOn \/ TraceReadCancelled \/ TraceReadPart
 
 TraceSpec == TraceInit /\ [][TraceNext]_tvars
 
